@@ -39,6 +39,29 @@ def taylor_replay(case):
                 if not (np.array_equal(c1, c2) and i1.failed == i2.failed and i1.degenerate == i2.degenerate):
                     bad.append(dict(what='reused Taylor object differs from a fresh one', z0=str(z0), failed=(i1.failed, i2.failed), degenerate=(i1.degenerate, i2.degenerate)))
                     break
+        # documented defaults
+        for mi in (4, 30, 31, 60, 200):
+            t = fb.Taylor(np.exp, max_iter=mi)
+            if t.min_iter != mi // 2:
+                bad.append(dict(what='Taylor(max_iter=%d).min_iter' % mi, got=t.min_iter, expected=mi // 2))
+        # error estimate with exactly five radii: must bound the actual error of the returned coefficients
+        m = 16
+        true = 0.5 ** (np.arange(m) + 1.0)
+        for r0 in (0.2, 0.35, 0.5):
+            rs = [r0 * 1.3 ** i for i in range(5)]
+            bs, mx = [], []
+            for r in rs:
+                fz = 1.0 / (2.0 - fb._circle(0.0, r, m))
+                bn = np.fft.fft(fz) / m
+                bs.append(bn * np.power(r, -np.arange(m, dtype=float)))
+                mx.append(np.max(np.abs(bn)))
+            coefs, errors = fb._get_best_taylor_coefficients(bs, rs, m, lambda: max(mx))
+            miss = np.abs(coefs - true)[:m // 2]
+            bound = 10 * np.abs(errors)[:m // 2] + 1e-14
+            if np.any(miss > bound):
+                k = int(np.argmax(miss / bound))
+                bad.append(dict(what='five radii: coefficient error exceeds 10 x reported error', radii=rs, k=k, coefficient=str(coefs[k]),
+                                true=float(true[k]), actual_error=float(miss[k]), reported_error=float(np.abs(errors)[k])))
         for n in range(1, 193):
             mm = int(fb._num_taylor_coefficients(n))
             if not (mm >= n + 1 and mm & (mm - 1) == 0):
